@@ -641,6 +641,9 @@ pub fn run(ctx: &mut Ctx) {
             ("non-ASCII inside", "Beh\u{e7}et disease".into()),
             ("the word NOT", "NOT".into()),
             ("colon and blank", "a: b".into()),
+            ("OMIM title with its leading number sign", "#154700 MARFAN SYNDROME; MFS".into()),
+            ("number sign inside", "Type 1 # 2".into()),
+            ("exclamation mark and braces", "Name ! with {braces} [brackets]".into()),
             ("hyphen, comma, digit", "Ehlers-Danlos syndrome, type 4".into()),
             // the placeholder JAX writes for genes without a symbol (and for unknown values in other columns)
             ("a hyphen", "-".into()),
